@@ -11,7 +11,7 @@ from vlib.nlp import NLP, Rows, diff_rows, subtract_rows, time_like_vars, random
 
 ID = "C04"
 LEVEL = "exploration"
-BUDGET = {"quick": (8, 60), "thorough": (16, 1000)}
+BUDGET = {"quick": (8, 60), "thorough": (16, 2000)}
 K = 3
 RULE = ("Generated OCP (all three sampling methods, N 1..4, M 1..3, degree 1..5, every grid class, fixed/free/parametric horizon) plus 1-3 generated "
         "constraints: relation in {<=,>=,==,two-sided}, scalar or vector, over states/controls/time/parameters/variables incl. per-interval kinds and "
